@@ -279,8 +279,10 @@ void file_server::normalize_path(std::string &path)
 				out --;
 			while(out > min_pos) {
 				out --;
-				if(*out == '/')
+				if(*out == '/') {
+					out ++;
 					break;
+				}
 			}
 		}
 		else {
